@@ -90,7 +90,7 @@ def run(ctx):
                 sig["has_format"] = any(x.startswith("fmt") for x in t)
                 sig["fmt_empty"] = "fmt_empty" in t
         else:
-            sig["dims"] = len(e["ctor"]["dims"])
+            sig["dims"] = len(e["ctor"].get("dims") or [])
             sig["panic_in"] = sorted({p.split(":")[0] for p in (e.get("panics") or [])})
         vlib.report_violation(ctx, sig, {"case": e.get("case"), "ctor": e.get("ctor"), "observed": {k: e[k] for k in e if k not in ("case", "ctor")}})
     return vlib.finish(ctx, LEVEL,
